@@ -64,6 +64,10 @@ pub enum Op {
     Dispatch,
     /// dispatch with a long timeout: the virtual clock jumps to the next deadline
     DispatchWait,
+    /// dispatch(half a step)
+    DispatchShort,
+    /// dispatch(None)
+    DispatchNone,
     Advance,
     Insert(KindSpec),
     Remove(usize),
@@ -87,6 +91,8 @@ pub enum Op {
     /// timer callback: reschedule one step after now (ToInstant) / ToDuration(step)
     RetToInstant,
     RetToDuration,
+    /// timer callback: ToDuration(Duration::MAX) (unrepresentable: the timer is dropped)
+    RetToDurationMax,
     /// fd callback: do not drain
     NoDrain,
     /// remove the running source and insert a new one in the same callback (slot reuse)
@@ -113,6 +119,10 @@ pub struct Cfg {
     pub top_stale: bool,
     pub top_advance: bool,
     pub top_dispatch_wait: bool,
+    pub top_dispatch_short: bool,
+    pub top_dispatch_none: bool,
+    pub check_wait: bool,
+    pub cb_ret_max: bool,
     pub top_set_deadline: Vec<i8>,
     pub top_clone: bool,
     pub update_disabled: bool,
@@ -154,6 +164,10 @@ impl Cfg {
             top_stale: false,
             top_advance: false,
             top_dispatch_wait: false,
+            top_dispatch_short: false,
+            top_dispatch_none: false,
+            check_wait: false,
+            cb_ret_max: false,
             top_set_deadline: vec![],
             top_clone: false,
             update_disabled: false,
@@ -197,6 +211,9 @@ pub struct MA {
     pub senders: u8,
     pub next_msg: u8,
     pub closed_delivered: bool,
+    /// channel: its eventfd was written when pe_reg_seq was this value (drained by a later
+    /// registered process_events)
+    pub sig_at: Option<u32>,
     // timer
     pub deadline: Option<i64>,
     pub armed: bool,
@@ -266,6 +283,10 @@ pub struct Ctx {
     pub masks: Rc<epoll::Masks>,
     pub poisoned: bool,
     pub ever_rearmed_in_batch: bool,
+    /// largest timer deadline fired so far in the current dispatch
+    pub last_fired_deadline: Option<i64>,
+    pub dispatch_timeout: Option<Duration>,
+    pub now_at_dispatch: u64,
 }
 
 fn ns_to_instant(ns: i64) -> Instant {
@@ -346,6 +367,7 @@ impl Ctx {
             senders: 0,
             next_msg: (id as u8) * 16,
             closed_delivered: false,
+            sig_at: None,
             deadline: None,
             armed: false,
             rearmed_in_batch: false,
@@ -400,9 +422,14 @@ impl Ctx {
             }
             KindSpec::Timer(g) => {
                 let dl = g as i64 * STEP_NS as i64;
-                ma.deadline = Some(dl);
-                ma.armed = true;
-                let timer = Timer::from_deadline(ns_to_instant(dl));
+                let timer = if g == i8::MAX {
+                    // unrepresentably far: never armed, never fires
+                    Timer::from_duration(Duration::MAX)
+                } else {
+                    ma.deadline = Some(dl);
+                    ma.armed = true;
+                    Timer::from_deadline(ns_to_instant(dl))
+                };
                 let disp = Dispatcher::new(
                     Tracked::new(timer, track.clone()),
                     move |ev: Instant, _: &mut (), ctx: &mut Ctx| {
@@ -483,6 +510,12 @@ impl Ctx {
         }
         if c.top_dispatch_wait {
             v.push(Op::DispatchWait);
+        }
+        if c.top_dispatch_short {
+            v.push(Op::DispatchShort);
+        }
+        if c.top_dispatch_none {
+            v.push(Op::DispatchNone);
         }
         if c.top_advance && seqhooks::now_ns() < 3 * STEP_NS {
             v.push(Op::Advance);
@@ -625,6 +658,9 @@ impl Ctx {
                 Payload::Timer(_) => {
                     v.push(Op::RetToInstant);
                     v.push(Op::RetToDuration);
+                    if c.cb_ret_max {
+                        v.push(Op::RetToDurationMax);
+                    }
                 }
                 _ => {}
             }
@@ -763,6 +799,22 @@ impl Ctx {
                         );
                     }
                 }
+                if let (Some(prev), Some(dl)) = (self.last_fired_deadline, dl) {
+                    if dl < prev && armed {
+                        self.violate(
+                            &["C05"],
+                            "timer-order",
+                            &[("rearmed_in_batch", rib.to_string()), ("updated_while_disabled", uwd.to_string())],
+                            format!("timer {id} (deadline {dl}) fired after a timer with the later deadline {prev} in the same dispatch"),
+                        );
+                    }
+                }
+                if let Some(dl) = dl {
+                    // only a fire that was due is a sound basis for the order clause
+                    if armed && now >= dl {
+                        self.last_fired_deadline = Some(self.last_fired_deadline.map(|p| p.max(dl)).unwrap_or(dl));
+                    }
+                }
                 self.m[id].armed = false;
             }
             Payload::Fd(rd) => {
@@ -819,6 +871,7 @@ impl Ctx {
         let mut ret = CbRet::default();
         self.cur.push(id);
         let mut nodrain = false;
+        let mut ret_max = false;
         for _ in 0..self.cfg.max_cb_ops {
             let menu = self.cb_menu(id, &p_kind(&desc));
             if menu.is_empty() {
@@ -849,6 +902,10 @@ impl Ctx {
                     self.m[id].armed = true;
                 }
                 Op::NoDrain => nodrain = true,
+                Op::RetToDurationMax => {
+                    ret.timeout = Some(TimeoutAction::ToDuration(Duration::MAX));
+                    ret_max = true;
+                }
                 other => self.apply(other),
             }
             if ret.post.is_some() || ret.timeout.is_some() {
@@ -882,8 +939,8 @@ impl Ctx {
             _ => {}
         }
         if let Payload::Timer(_) = p_kind(&desc) {
-            if ret.timeout.is_none() {
-                // TimeoutAction::Drop: the timer removes itself
+            if ret.timeout.is_none() || ret_max {
+                // TimeoutAction::Drop (or an unrepresentable reschedule): the timer removes itself
                 self.model_removed(id, 4, true);
             }
         }
@@ -1116,6 +1173,7 @@ impl Ctx {
                         self.m[j].next_msg = v.wrapping_add(1);
                         if self.rt[j].senders[0].send(v).is_ok() {
                             self.m[j].q.push_back(v);
+                            self.m[j].sig_at = Some(self.rt[j].track.pe_reg_seq.get());
                         } else if self.m[j].alive {
                             self.violate(&["C04"], "send-failed", &[],
                                 format!("send on channel {j} failed while the channel is in the loop"));
@@ -1148,6 +1206,7 @@ impl Ctx {
                     KindSpec::Chan => {
                         self.rt[j].senders.pop();
                         self.m[j].senders -= 1;
+                        self.m[j].sig_at = Some(self.rt[j].track.pe_reg_seq.get());
                     }
                     KindSpec::Fd { w, .. } => {
                         let efd = self.rt[j].efd.clone().unwrap();
@@ -1206,7 +1265,10 @@ impl Ctx {
             }
             Op::Stale(j, k) => self.stale_op(j, k),
             Op::Advance => seqhooks::advance(Duration::from_nanos(STEP_NS)),
-            Op::Dispatch | Op::DispatchWait => unreachable!("dispatch is executed by the runner"),
+            Op::Dispatch | Op::DispatchWait | Op::DispatchShort | Op::DispatchNone => {
+                unreachable!("dispatch is executed by the runner")
+            }
+            Op::RetToDurationMax => unreachable!(),
             Op::RetRemove | Op::RetDisable | Op::RetReregister | Op::RetToInstant | Op::RetToDuration | Op::NoDrain => {
                 unreachable!()
             }
@@ -1252,8 +1314,35 @@ impl Ctx {
 
     // ------------------------------------------------------------------ dispatch
 
+    /// Does the model know of anything that makes the epoll fd readable?
+    fn kernel_pending(&self) -> bool {
+        self.m.iter().enumerate().any(|(i, a)| {
+            if !(a.alive && a.enabled) {
+                return false;
+            }
+            let tr = &self.rt[i].track;
+            match a.spec {
+                KindSpec::Ping => a.ping || a.close_at.is_some(),
+                KindSpec::Chan => a.sig_at.map(|at| tr.pe_reg_seq.get() <= at).unwrap_or(false),
+                KindSpec::Timer(_) => false,
+                KindSpec::Fd { r, w, mode } => {
+                    let ready = (r && a.fdc > 0) || (w && a.fdc < 2);
+                    match mode {
+                        0 => ready,
+                        // edge: a further write while ready re-queues the item, so "ready" is
+                        // the only sound over-approximation; one-shot: only while armed
+                        1 => ready,
+                        _ => ready && a.os_armed,
+                    }
+                }
+            }
+        })
+    }
+
     pub fn pre_dispatch(&mut self) {
         self.in_dispatch = true;
+        self.last_fired_deadline = None;
+        self.now_at_dispatch = seqhooks::now_ns();
         for (i, a) in self.m.iter_mut().enumerate() {
             a.called = false;
             a.disturbed = false;
@@ -1289,6 +1378,57 @@ impl Ctx {
         }
         // the poll time is at least now; refined in post_dispatch
         self.now_at_poll = seqhooks::now_ns();
+    }
+
+    /// The timeout the wait seam must see: min(timeout, earliest armed deadline - now).
+    pub fn expected_wait(&self, timeout: Option<Duration>) -> Option<Duration> {
+        let now = seqhooks::now_ns() as i64;
+        let next = self
+            .m
+            .iter()
+            .filter(|a| a.alive && a.enabled && a.armed && matches!(a.spec, KindSpec::Timer(_)))
+            .filter_map(|a| a.deadline)
+            .min()
+            .map(|d| Duration::from_nanos((d - now).max(0) as u64));
+        match (timeout, next) {
+            (Some(t), Some(n)) => Some(t.min(n)),
+            (t, n) => t.or(n),
+        }
+    }
+
+    pub fn check_wait(
+        &mut self,
+        timeout: Option<Duration>,
+        expect: Option<Duration>,
+        pending_before: bool,
+        waits: &[seqhooks::WaitRec],
+    ) {
+        self.clause("wait-request");
+        let Some(w) = waits.first().cloned() else { return };
+        let rib = self.ever_rearmed_in_batch;
+        let uwd = self.m.iter().any(|a| a.ever_upd_while_disabled && matches!(a.spec, KindSpec::Timer(_)));
+        let feats = vec![("rearmed_in_batch", rib.to_string()), ("updated_while_disabled", uwd.to_string())];
+        if w.requested != expect {
+            self.violate(&["C12"], "wait-request-mismatch", &feats,
+                format!("dispatch({timeout:?}) asked the poller to wait {:?}, expected {expect:?} = min(timeout, earliest armed deadline - now)", w.requested));
+        }
+        if timeout == Some(Duration::ZERO) && w.requested != Some(Duration::ZERO) {
+            self.violate(&["C12"], "zero-timeout-blocks", &feats,
+                format!("dispatch(0) asked the poller to wait {:?}", w.requested));
+        }
+        if !pending_before && w.readable {
+            self.violate(&["C12", "C03"], "spurious-readiness", &[],
+                "nothing is pending according to the model but the epoll fd was readable when the wait began (the loop would spin)".to_string());
+        }
+        if !pending_before && !w.readable && expect.is_none() && !w.would_block_forever {
+            self.violate(&["C12"], "none-does-not-block", &[], "dispatch(None) with nothing pending and no timer did not wait".into());
+        }
+        if w.would_block_forever {
+            self.clause("wait-forever");
+        }
+        if w.slept.is_some() {
+            self.clause("wait-slept");
+        }
     }
 
     pub fn post_dispatch(&mut self, ok: bool, waits: &[seqhooks::WaitRec]) {
@@ -1586,6 +1726,9 @@ pub fn run_history(cfg: &Rc<Cfg>, verbose: bool) -> (Outcome, Option<Vec<String>
         masks: masks(),
         poisoned: false,
         ever_rearmed_in_batch: false,
+        last_fired_deadline: None,
+        dispatch_timeout: None,
+        now_at_dispatch: 0,
     };
     let initial = if cfg.initial_sets.len() > 1 {
         let c = explore::choose(cfg.initial_sets.len() as u32, Kind::Free);
@@ -1672,21 +1815,28 @@ pub fn run_history(cfg: &Rc<Cfg>, verbose: bool) -> (Outcome, Option<Vec<String>
 
 fn step(el: &mut EventLoop<'static, Ctx>, ctx: &mut Ctx, op: Op) -> bool {
     match op {
-        Op::Dispatch | Op::DispatchWait => {
+        Op::Dispatch | Op::DispatchWait | Op::DispatchShort | Op::DispatchNone => {
             ctx.transitions += 1;
-            let timeout = if op == Op::Dispatch {
-                Duration::ZERO
-            } else {
-                Duration::from_nanos(10 * STEP_NS)
+            let timeout = match op {
+                Op::Dispatch => Some(Duration::ZERO),
+                Op::DispatchWait => Some(Duration::from_nanos(10 * STEP_NS)),
+                Op::DispatchShort => Some(Duration::from_nanos(STEP_NS / 2)),
+                _ => None,
             };
+            ctx.dispatch_timeout = timeout;
             ctx.pre_dispatch();
             let _ = seqhooks::take_waits();
-            let r = catch_unwind(AssertUnwindSafe(|| el.dispatch(Some(timeout), ctx)));
+            let pending_before = ctx.kernel_pending();
+            let expect_req = ctx.expected_wait(timeout);
+            let r = catch_unwind(AssertUnwindSafe(|| el.dispatch(timeout, ctx)));
             let waits = seqhooks::take_waits();
             ctx.now_at_poll = seqhooks::now_ns();
             match r {
                 Ok(Ok(())) => {
                     ctx.log("dispatch ok".into());
+                    if ctx.cfg.check_wait {
+                        ctx.check_wait(timeout, expect_req, pending_before, &waits);
+                    }
                     ctx.post_dispatch(true, &waits);
                 }
                 Ok(Err(e)) => {
